@@ -25,6 +25,7 @@ CLASSES = {
     'lnbj': (om.LinearBlockJac, {}),
 }
 LINEAR = ('lnbgs', 'lnbj')
+SWEEPING = ('nlbgs', 'nlbgs_apply', 'nlbj')   # one iteration = one sweep over the subsystems
 
 
 class Affine(om.ExplicitComponent):
@@ -74,6 +75,15 @@ class Script(object):
         self.init_ret = None
         self.loop_norms = []      # norms handed out inside the loop (after _iter_initialize returned)
         self.in_init = False
+        self.sweeps = 0           # block solvers: how often the first subsystem was solved
+
+    def watch_sweeps(self, subsys):
+        real = subsys._solve_nonlinear
+
+        def counted():
+            self.sweeps += 1
+            return real()
+        subsys._solve_nonlinear = counted
 
     def norm(self):
         self.real_norm()          # keep the side effects of the real method (Broyden caches fxm, ...)
@@ -134,6 +144,8 @@ def get_problem(cls, cs):
     if cs:
         p.set_complex_step_mode(True)
     sc = Script(solver)
+    if cls in SWEEPING:
+        sc.watch_sweeps(p.model.a)
     _PROBS[key] = (p, solver, sc)
     return _PROBS[key]
 
@@ -205,6 +217,9 @@ def handle(c):
     if not (iters <= max(maxiter, 0) or (forced and sc.nsingle == 1)) or sc.nsingle > iters:
         ok, sig = False, 'more-than-maxiter'
         msg = '%d iterations (%d _single_iteration calls) with maxiter=%d: %s' % (iters, sc.nsingle, maxiter, desc)
+    if ok and cls in SWEEPING and not (sc.sweeps <= max(maxiter, 0) or (forced and sc.sweeps == 1)):
+        ok, sig = False, 'more-than-maxiter'
+        msg = '%d sweeps over the subsystems with maxiter=%d (_iter_count=%d): %s' % (sc.sweeps, maxiter, iters, desc)
     if ok:
         for k in range(len(iterates) - 1):
             if met(iterates[k], norm0, atol, rtol) and not (forced and k == 0):
